@@ -5,6 +5,7 @@ f is listed under P here (the transitive set of functions P's top-level contract
 BITS_FNS = ["encode_base", "decode_base", "rc_base", "valid_base",
             "UInt::rev_comp", "UInt::lsb_u8", "UInt::as_u8", "UInt::generate_masks", "UInt::skalo_mask",
             "UInt::zero_init", "UInt::from_encoded_base"]
+DICT_FNS = ["add_file_kmers.first_window", "add_file_kmers.next_window"]
 SPLIT_FNS = ["SplitKmer::valid_qual", "SplitKmer::build", "SplitKmer::update_rc", "SplitKmer::roll_fwd",
              "SplitKmer::new", "SplitKmer::get_curr_kmer", "SplitKmer::get_next_kmer",
              "SplitKmer::get_middle_pos", "SplitKmer::self_palindrome"]
@@ -15,7 +16,7 @@ PROPS = {
     "C01": {
         "level": "proof",
         "verus": [("kmer", ["u64", "u128"])],
-        "functions": BITS_FNS + SPLIT_FNS,
+        "functions": BITS_FNS + SPLIT_FNS + DICT_FNS,
         "kani": [("tables", ["oracle_bijective", "iupac_union", "iupac_order_independent", "encode_decode_consistent", "valid_base_n", "leaf_fns_all_bytes"]),
                  ("bitops", None),
                  ("palin", None), ("tablefrag", ["add_to_dict_modify_is_union", "add_to_dict_insert_is_singleton", "add_to_dict_two_observations_commute"])],
@@ -26,7 +27,7 @@ PROPS = {
         "verus": [("kmer", ["u64", "u128"])],
         "functions": ["encode_base", "valid_base", "rc_base", "UInt::rev_comp", "UInt::generate_masks",
                       "SplitKmer::build", "SplitKmer::update_rc", "SplitKmer::roll_fwd", "SplitKmer::new",
-                      "SplitKmer::get_curr_kmer", "SplitKmer::get_next_kmer", "SplitKmer::self_palindrome"],
+                      "SplitKmer::get_curr_kmer", "SplitKmer::get_next_kmer", "SplitKmer::self_palindrome"] + DICT_FNS,
         "kani": [("tables", ["iupac_order_independent", "encode_decode_consistent", "valid_base_n", "leaf_fns_all_bytes"]), ("bitops", None), ("palin", None), ("tablefrag", ["add_to_dict_two_observations_commute"])],
         "bounded": [],
     },
@@ -47,7 +48,7 @@ PROPS = {
     "C12": {
         "level": "proof",
         "verus": [("kmer", ["u64", "u128"]), ("bloom", [None])],
-        "functions": QUAL_FNS + ["KmerFilter::reduce", "KmerFilter::cheap_mix", "KmerFilter::fingerprint",
+        "functions": QUAL_FNS + DICT_FNS + ["KmerFilter::reduce", "KmerFilter::cheap_mix", "KmerFilter::fingerprint",
                                  "KmerFilter::location", "KmerFilter::bloom_add_and_check",
                                  "NtHashIterator::new", "NtHashIterator::roll_fwd", "NtHashIterator::curr_hash"],
         "kani": [("nthash", None), ("readfilter", None), ("bitops", None), ("tables", ["leaf_fns_all_bytes"])],
